@@ -30,12 +30,19 @@ class Gen:
     def __init__(self, ch: Choices, opts: dict | None = None) -> None:
         self.ch = ch
         self.o = {"max_depth": 3, "max_sites": 22, "on_error": 0.3,
-                  "switch": 0.12, "pipes": 0.3, "prefixes": 0.25}
+                  "switch": 0.12, "pipes": 0.3, "prefixes": 0.25,
+                  "macros": 0.0}
         self.o.update(opts or {})
         self.nsite = 0
         self.sites: dict[str, dict] = {}     # str(k) -> default value spec
         self.roles: dict[str, str] = {}
         self.nvar = 0
+        self.neid = 0
+        self.nmacro = 0
+        self.nslot = 0
+        self.macro_stack: list[dict] = []     # macros being generated
+        self.complete_macros: list[dict] = []  # {"name", "slots"}
+        self.in_fill = 0
 
     # -- expressions -------------------------------------------------------------
     def value_for(self, role: str) -> dict:
@@ -146,15 +153,69 @@ class Gen:
                 parts.append(["sexpr", self.probe("sinterp")])
         return {"t": "text", "parts": parts}
 
-    def element(self, depth: int, in_switch: bool = False) -> dict:
+    def new_el(self) -> dict:
+        ch = self.ch
+        self.neid += 1
+        return {"t": "el", "eid": self.neid, "tag": ch.pick(TAGS),
+                "talns": ch.coin(0.08),
+                "static": [], "define": [], "condition": None, "repeat": None,
+                "switch": None, "case": None, "content": None,
+                "replace": None, "omit": None, "attributes": [],
+                "on_error": None, "define_macro": None, "use_macro": None,
+                "define_slot": None, "fill_slot": None, "children": []}
+
+    def use_macro_element(self, depth: int) -> dict:
+        """<x metal:use-macro="template.macros['m']"> with fill-slots."""
+        ch = self.ch
+        el = self.new_el()
+        macro = ch.pick(self.complete_macros)
+        el["use_macro"] = macro["name"]
+        if ch.coin(0.3):
+            self.nvar += 1
+            el["define"].append(["", "v%d" % self.nvar, self.expr("define")])
+        if ch.coin(0.2):
+            el["condition"] = self.expr("cond")
+        if ch.coin(0.15):
+            self.nvar += 1
+            el["repeat"] = ["r%d" % self.nvar, self.expr("repeat")]
+        if ch.coin(self.o["on_error"]):
+            el["on_error"] = ["", {"k": "string", "parts": [
+                ["lit", "err%d" % self.nsite]]}]
+        for slot in macro["slots"]:
+            if ch.coin(0.6):
+                self.in_fill += 1
+                f = self.element(depth + 1, fill_slot=slot)
+                self.in_fill -= 1
+                el["children"].append(f)
+        if ch.coin(0.3):
+            el["children"].append({"t": "text", "parts": [["lit", "ign"]]})
+        stmts = [x for x in ("define", "condition", "repeat", "on_error")
+                 if el[x] not in (None, [])] + ["use_macro"]
+        el["order"] = ch.shuffle(stmts)
+        return el
+
+    def element(self, depth: int, in_switch: bool = False,
+                fill_slot: str | None = None) -> dict:
         ch = self.ch
         o = self.o
-        el = {"t": "el", "tag": ch.pick(TAGS), "talns": ch.coin(0.08),
-              "static": [], "define": [], "condition": None, "repeat": None,
-              "switch": None, "case": None, "content": None, "replace": None,
-              "omit": None, "attributes": [], "on_error": None,
-              "children": []}
+        if o["macros"] and not in_switch and fill_slot is None and \
+                self.complete_macros and ch.coin(0.18):
+            return self.use_macro_element(depth)
+        el = self.new_el()
+        el["fill_slot"] = fill_slot
         budget_left = self.nsite < o["max_sites"]
+        is_macro = False
+        if o["macros"] and not in_switch and fill_slot is None and \
+                depth < o["max_depth"] and ch.coin(o["macros"]):
+            self.nmacro += 1
+            el["define_macro"] = "m%d" % self.nmacro
+            self.macro_stack.append({"name": el["define_macro"], "slots": []})
+            is_macro = True
+        elif o["macros"] and self.macro_stack and not self.in_fill and \
+                not in_switch and fill_slot is None and ch.coin(0.3):
+            self.nslot += 1
+            el["define_slot"] = "s%d" % self.nslot
+            self.macro_stack[-1]["slots"].append(el["define_slot"])
         if in_switch:
             t = ch.choose(8)
             if t == 0:
@@ -189,7 +250,8 @@ class Gen:
             elif t < 4:
                 el["replace"] = [ch.pick(["text", "structure", ""]),
                                  self.expr("replace")]
-        has_on_error = budget_left and ch.coin(o["on_error"])
+        has_on_error = budget_left and ch.coin(o["on_error"]) and \
+            fill_slot is None
         if budget_left and not el["talns"]:
             t = ch.choose(10)
             if t == 0:
@@ -240,18 +302,18 @@ class Gen:
             el["children"].append(self.text())
         stmts = [s for s in ("define", "condition", "repeat", "switch", "case",
                              "content", "replace", "omit", "attributes",
-                             "on_error")
+                             "on_error", "define_macro", "define_slot",
+                             "fill_slot")
                  if el[s] not in (None, [])]
         el["order"] = ch.shuffle(stmts)
+        if is_macro:
+            self.complete_macros.append(self.macro_stack.pop())
         return el
 
     def template(self) -> dict:
         ch = self.ch
-        root = {"t": "el", "tag": "html", "talns": False, "static": [],
-                "define": [], "condition": None, "repeat": None,
-                "switch": None, "case": None, "content": None,
-                "replace": None, "omit": None, "attributes": [],
-                "on_error": None, "children": [], "order": []}
+        root = self.new_el()
+        root.update({"tag": "html", "talns": False, "order": []})
         for _ in range(1 + ch.choose(4)):
             if ch.coin(0.75):
                 root["children"].append(self.element(1))
@@ -384,6 +446,21 @@ class Ser:
                         self.w("; ")
                     self.w(name + " ")
                     self.expr(e, "attr")
+                self.w('"')
+            elif s == "define_macro":
+                self.w(self.sp() + 'metal:define-macro="%s"' % n[s])
+            elif s == "define_slot":
+                self.w(self.sp() + 'metal:define-slot="%s"' % n[s])
+            elif s == "fill_slot":
+                self.w(self.sp() + 'metal:fill-slot="%s"' % n[s])
+            elif s == "use_macro":
+                self.w(self.sp() + 'metal:use-macro="')
+                start = self.pos
+                text = "template.macros['%s']" % n[s]
+                self.w(text)
+                self.occ.append({"start": start, "end": self.pos,
+                                 "kind": "use_macro", "e": "use",
+                                 "parent": None, "eid": n["eid"]})
                 self.w('"')
             elif s == "on_error":
                 mode, e = n["on_error"]
